@@ -624,6 +624,7 @@ def run(P, R, tier):
     halforigin_rule(P, R)
     cvodeorigin_rule(P, R)
     exitcheck_rule(P, R)
+    timesum_rule(P, R)
     timeorigin_rule(P, R)
 
 
@@ -1441,3 +1442,77 @@ def exitcheck_rule(P, R):
                         file=f["file"], line=cfg.nodes[g]["line"], function=f["q"])
         else:
             R.ok(RULE, inst, "a later calc_kinetic_reaction lies on every path from k1 (line %d)" % cfg.nodes[k1]["line"])
+
+
+def timesum_rule(P, R):
+    """With INCREMENTAL_REACTIONS true, reaction step k is integrated over cxxKinetics::Current_step(true, k) seconds, and two places in
+    print.cpp compute the time that is REPORTED for step k (SELECTED_OUTPUT -time, the "Incremented time" heading, TOTAL_TIME of
+    USER_PRINT) with their own arithmetic over the -steps list.  The amounts belong to the reported time only if that arithmetic equals
+    the sum of the integrated increments, also past the end of the list (an explicit list repeats its last increment, `T in n steps`
+    stops).  Both sides are executed concretely (engine/minieval.py) for an explicit list 100 200 100 and for `400 in 4 steps`, steps
+    1..6."""
+    from .. import minieval as ME
+    RULE = "C12.timesum"
+    R.rule(RULE, "incremental reactions: the reported time of step k is the sum of Current_step(true, 1..k), for an explicit list and for `in n steps`, past the end too", minimum=12)
+    cur = P.one("cxxKinetics::Current_step")
+    models = {"list": dict(steps=[100.0, 200.0, 100.0], equal=0, count=3), "equal": dict(steps=[400.0], equal=1, count=4)}
+
+    def getter(model):
+        def oncall(c):
+            nm = T.callee_name(c)
+            if nm == "Get_steps":
+                return model["steps"]
+            if nm == "Get_equalIncrements":
+                return model["equal"]
+            if nm in ("Get_count",):
+                return model["count"]
+            if nm == "Get_reaction_steps":
+                return model["count"] if model["equal"] else len(model["steps"])
+            if nm == "Get_kinetics_ptr":
+                return 1
+            return None
+        return oncall
+
+    def integrated(model, k):
+        env = ME.Env(vectors={"steps": model["steps"]}, scalars={"equalIncrements": model["equal"], "count": model["count"],
+                                                                  cur["pnames"][0]: 1, cur["pnames"][1]: k})
+        env.oncall = getter(model)
+        try:
+            ME.run(cur["body"], env)
+        except ME.Returned as r:
+            return r.value
+        raise ME.Unsupported("Current_step did not return")
+    sites = []
+    for q in ("Phreeqc::punch_identifiers", "Phreeqc::print_user_print", "Phreeqc::punch_user_punch", "Phreeqc::print_all", "Phreeqc::print_kinetics"):
+        for g in P.fns_named(q):
+            if not g.get("body"):
+                continue
+            for x in T.walk(g["body"]):
+                if x[0] == "If":
+                    tg = {"".join(T.text(t).split()) for t, how, line, w in T.writes(x[3]) if how in ("=", "op=")}
+                    tg = {t for t in tg if t in ("reaction_time", "sim_time")}
+                    conds = T.text(x[2], -40)
+                    if tg and "Get_equalIncrements" in conds and x[2][0] == "Un":
+                        sites.append((g, x, sorted(tg)[0]))
+    if len(sites) < 2:
+        R.anchor_missing(RULE, "print.cpp: %d computations of the incremental reaction time found (2 confirmed)" % len(sites))
+        return
+    for g, x, var in sites:
+        for mname, model in sorted(models.items()):
+            for k in range(1, 7):
+                inst = "%s:%s:%s:step%d" % (g["q"].split("::")[-1], var, mname, k)
+                try:
+                    want = sum(integrated(model, j) for j in range(1, k + 1))
+                    env = ME.Env(scalars={"reaction_step": k, var: 0.0, "i": 0})
+                    env.oncall = getter(model)
+                    ME.run(x, env)
+                    got = env.var[var]
+                except (ME.Unsupported, IndexError, KeyError) as e:
+                    R.anchor_missing(RULE, "%s: not evaluable (%s)" % (inst, e))
+                    return
+                if abs(got - want) < 1e-9:
+                    R.ok(RULE, inst, "reported %g = integrated %g" % (got, want))
+                else:
+                    R.violation(RULE, inst, "step %d of %s: %s reports the time %g but the steps integrated so far (Current_step) add up to %g: the punched amounts belong to another "
+                                "time than the one reported" % (k, "an explicit -steps list 100 200 100" if mname == "list" else "`-steps 400 in 4 steps`", g["q"].split("::")[-1],
+                                                                got, want), file=g["file"], line=x[1], function=g["q"])
